@@ -321,7 +321,7 @@ func propC08(w *World, r *Report) {
 	r.Check(n3 >= 4, "G4", "background stores found", "-", fmt.Sprint(n3))
 	// N4: clamp-only occurrences in the differencing kernels
 	T := d.leaf("tempThresh")
-	for _, fn := range []*ssa.Function{k.diffAbs, k.diffWarm} {
+	for _, fn := range kernelFamily(k.diffAbs, k.diffWarm) {
 		for _, a := range elemAccesses(fn) {
 			if !a.IsStore {
 				continue
@@ -347,7 +347,7 @@ func propC08(w *World, r *Report) {
 	}
 	// ... and every interior pixel's result is stored on every pass (a skipped store leaves the value computed from an
 	// earlier frame pair in the re-used slot: sub-threshold values would then decide what is kept)
-	for _, fn := range []*ssa.Function{k.diffAbs, k.diffWarm} {
+	for _, fn := range kernelFamily(k.diffAbs, k.diffWarm) {
 		for _, a := range elemAccesses(fn) {
 			if a.IsStore {
 				checkPixelStoredOnEveryIteration(w, r, e, fn, a, d.leaf("tempThresh"), "N4")
@@ -588,6 +588,16 @@ func propC07(w *World, r *Report) {
 		want string
 		what string
 	}{{k.diffAbs, wantAbs, "|max(a,T) - max(b,T)|"}, {k.diffWarm, wantWarm, "max(max(a,T) - max(b,T), 0)"}} {
+		for _, vfn := range kernelFamily(kk.fn)[1:] {
+			// a variant of the kernel it hands off to (a verbose / fast twin): the same stored form is demanded of it
+			for _, a := range elemAccesses(vfn) {
+				if a.IsStore {
+					got := e.termOf(a.Val).String()
+					r.Check(got == kk.want, "K2", vfn.Name()+" (variant of "+kk.fn.Name()+"): stored difference is "+kk.what, w.InstrPos(a.Instr), got)
+					checkPixelStoredOnEveryIteration(w, r, e, vfn, a, T, "K2")
+				}
+			}
+		}
 		for _, a := range elemAccesses(kk.fn) {
 			if !a.IsStore {
 				continue
@@ -1287,4 +1297,44 @@ func checkPixelStoredOnEveryIteration(w *World, r *Report, e *termEnv, fn *ssa.F
 		}
 	}
 	r.Check(len(dataGuards) == 0 && skip == "", rule, fn.Name()+": the difference is stored for every interior pixel (no data-dependent skip)", w.InstrPos(a.Instr), strings.Join(dataGuards, " ; ")+skip)
+}
+
+// kernelFamily: the kernels given, each followed by the functions of the same receiver it hands its frames on to (a
+// per-mode twin of the kernel: verbose, fast path): what is demanded of a kernel is demanded of its twins.
+func kernelFamily(fns ...*ssa.Function) []*ssa.Function {
+	var out []*ssa.Function
+	seen := map[*ssa.Function]bool{}
+	var add func(fn *ssa.Function, depth int)
+	add = func(fn *ssa.Function, depth int) {
+		if fn == nil || seen[fn] || depth > 2 {
+			return
+		}
+		seen[fn] = true
+		out = append(out, fn)
+		for _, b := range fn.Blocks {
+			for _, in := range b.Instrs {
+				c, ok := in.(*ssa.Call)
+				if !ok {
+					continue
+				}
+				cl := c.Call.StaticCallee()
+				if cl == nil || cl.Pkg != fn.Pkg || len(cl.Blocks) == 0 || cl.Signature.Recv() == nil || fn.Signature.Recv() == nil || !types.Identical(cl.Signature.Recv().Type(), fn.Signature.Recv().Type()) {
+					continue
+				}
+				nFrames := 0
+				for _, a := range c.Call.Args {
+					if typeIs(a.Type(), "github.com/TheCacophonyProject/go-cptv/cptvframe", "Frame") {
+						nFrames++
+					}
+				}
+				if nFrames >= 2 {
+					add(cl, depth+1)
+				}
+			}
+		}
+	}
+	for _, fn := range fns {
+		add(fn, 0)
+	}
+	return out
 }
